@@ -45,6 +45,12 @@ class Broken(Exception):
 
 
 def sh(cmd, cwd=None, timeout=3600, env=None, inp=None):
+    # In some sandboxes /dev/null is a regular file that accumulates whatever was redirected into it; cargo probes
+    # the compiler with `rustc -` reading from it and fails when it is not empty. Emptying it is harmless on a real device.
+    try:
+        open("/dev/null", "w").close()
+    except OSError:
+        pass
     p = subprocess.run(cmd, cwd=cwd, timeout=timeout, env=env or ENV, input=inp,
                        stdout=subprocess.PIPE, stderr=subprocess.STDOUT, text=True)
     return p.returncode, p.stdout
